@@ -9,6 +9,7 @@ import (
 	"runtime"
 	"sync"
 	"testing"
+	"time"
 
 	"github.com/free5gc/ike/eap"
 	"github.com/free5gc/ike/message"
@@ -665,4 +666,41 @@ func TestC18(t *testing.T) {
 	}
 	c.Note("race detector enabled: %v; schedules are sampled by the Go runtime, not enumerated", raceEnabled)
 	c18Concurrent.Run(c, t, c.N(120, 1000))
+	c18NoStragglers.Eval(c, c18LeakIn{Calls: 400})
 }
+
+// When a call has returned it is over: the library leaves no goroutines behind that keep running (and could touch shared
+// state later). A worker pool of a few long-lived goroutines is its own business; a goroutine per call is not.
+type c18LeakIn struct {
+	Calls int `json:"calls"`
+}
+
+var c18NoStragglers = probe.Define("C18", "no-goroutines-left-behind", func(t *rapid.T) c18LeakIn { panic("enumerated") }, func(in c18LeakIn) probe.Outcome {
+	settle := func() int {
+		n := runtime.NumGoroutine()
+		for i := 0; i < 200; i++ {
+			runtime.Gosched()
+			time.Sleep(time.Millisecond)
+			if m := runtime.NumGoroutine(); m < n {
+				n = m
+			} else if i > 20 {
+				break
+			}
+		}
+		return n
+	}
+	prog := c18Cold().Progs[0]
+	before := settle()
+	for i := 0; i < in.Calls; i++ {
+		for _, r := range c18Run(prog, c18Cold().Shared, false) {
+			if len(r) > 7 && r[:7] == "HARNESS" {
+				return probe.Fail("%s", r)
+			}
+		}
+	}
+	after := settle()
+	if after > before+8 {
+		return probe.Fail("%d goroutines are still running after %d x %d library calls have returned (%d before): calls leave goroutines behind", after, in.Calls, len(prog.Ops), before)
+	}
+	return probe.OK(true, "no-goroutines-left-behind")
+})
